@@ -38,13 +38,16 @@ BEHAVIOURS = {
     "both":            ('cat payload.new\ncat payload.new > "$3"', ("fail", 207)),
     "write1":          ('cat payload.new > "$1"', ("fail", 206)),
     "write1+stdout":   ('cat payload.new > "$1"\ncat payload.new', ("fail", 206)),
+    # direct writes that leave $1 with an OLDER / identical-looking time stamp than before (cp -p, touch -r, tar x)
+    "write1-oldmtime": ('cat payload.new > "$1"\ntouch -d "2001-02-03 04:05:06" "$1"', ("fail", 206)),
+    "write1-oldmtime+stdout": ('cat payload.new > "$1"\ntouch -d "2001-02-03 04:05:06" "$1"\ncat payload.new', ("fail", 206)),
     "create-delete":   ('cat payload.new > "$3"\nrm -f "$3"', ("ok-absent", 0)),
     "stdout-exit5":    ('cat payload.new\nexit 5', ("fail", 5)),
     "file-exit5":      ('cat payload.new > "$3"\nexit 5', ("fail", 5)),
     "partial-stdout-kill9":  ('head -c %(half)d payload.new\nkill -9 $$\ncat payload.new', ("fail", -9)),
     "partial-file-killTERM": ('head -c %(half)d payload.new > "$3"\nkill -TERM $$\ncat payload.new > "$3"', ("fail", -15)),
 }
-WRITES_TARGET_ITSELF = ("write1", "write1+stdout")
+WRITES_TARGET_ITSELF = ("write1", "write1+stdout", "write1-oldmtime", "write1-oldmtime+stdout")
 
 _W = {}
 
